@@ -434,13 +434,13 @@ def q3(prog, rep):
 
 
 # ----------------------------------------------------------------------------------------------
-def q4(prog, rep):
+def q4(prog, rep, rule="Q4"):
     fn = RC + "reconstruct_blocks_from_verified_blobs"
     body = prog.main_body(fn)
     rm = body.calls_to(RC + "remove_header_blob_matching_rollup_blob")
-    rep.floor("Q4", len(rm), 1, "remove_header_blob_matching_rollup_blob call")
+    rep.floor(rule, len(rm), 1, "remove_header_blob_matching_rollup_blob call")
     aggs = list(body.aggregates("adt", r"ReconstructedBlock$"))
-    rep.floor("Q4", len(aggs), 2, "ReconstructedBlock construction sites")
+    rep.floor(rule, len(aggs), 2, "ReconstructedBlock construction sites")
     for i, j, p, rv, line in aggs:
         fields = dict(zip(rv[5], [body.root(o) for o in rv[4]]))
         txs = fields.get("transactions", "")
@@ -448,7 +448,7 @@ def q4(prog, rep):
         if "into_unchecked(" in txs or "rollup" in txs:
             # data taken from a rollup blob: only behind the matching+proof step, with the
             # header of the metadata that step returned
-            k2_site_guarded(rep, "Q4", "block-with-data<=proof", body, i, rm,
+            k2_site_guarded(rep, rule, "block-with-data<=proof", body, i, rm,
                             "rollup data is attached to metadata without passing the Merkle "
                             "proof check (remove_header_blob_matching_rollup_blob Some edge)",
                             where)
@@ -457,13 +457,13 @@ def q4(prog, rep):
             idc = [c for c in comparisons(body) if c.op == "Eq"
                    and re.search(r"rollup_id\(.*rollup", c.a + "|" + c.b)
                    and re.search(r"(^|\|)rollup_id($|\|)", c.a + "|" + c.b)]
-            rep.check(bool(idc) and body.must_pass_edges(set(idc[0].true_edges), i), "Q4",
+            rep.check(bool(idc) and body.must_pass_edges(set(idc[0].true_edges), i), rule,
                       "block-with-data<=own-rollup-id",
                       "rollup data is attached without checking that the blob's rollup id is the "
                       "conductor's own: another rollup's data of the same block (valid proof, "
                       "posted into this namespace) would be executed as this rollup's", where)
             rep.check("remove_header_blob_matching_rollup_blob" in fields.get("header", ""),
-                      "Q4", "block-with-data:header-source",
+                      rule, "block-with-data:header-source",
                       f"the header attached to rollup data does not come from the matched "
                       f"metadata: {trunc(fields.get('header', ''))}", where)
         else:
@@ -472,7 +472,7 @@ def q4(prog, rep):
             if cont:
                 oe = body.outcome_edges(cont[0])
                 good = oe["kind"] == "bool" and body.must_pass_edges(set(oe["err"]), i)
-            rep.check(good, "Q4", "header-only<=not-contains",
+            rep.check(good, rule, "header-only<=not-contains",
                       "a block without rollup data is emitted although the metadata lists the "
                       "rollup id (its data may have been withheld)", where)
     # remove_header_blob_matching_rollup_blob: removal (= Some) only after the proof check on
@@ -482,15 +482,15 @@ def q4(prog, rep):
     rem = [c for c in body.calls if c.matches(r"HashMap::<K, V, S, A>::remove$")]
     get = [c for c in body.calls if c.matches(r"HashMap::<K, V, S, A>::get$")]
     ver = [c for c in prog.calls_in(fn) if c.is_(RC + "verify_rollup_blob_against_sequencer_blob")]
-    rep.floor("Q4", len(rem), 1, "headers.remove in remove_header_blob_matching_rollup_blob")
-    rep.floor("Q4", len(ver), 1, "verify_rollup_blob_against_sequencer_blob call")
+    rep.floor(rule, len(rem), 1, "headers.remove in remove_header_blob_matching_rollup_blob")
+    rep.floor(rule, len(ver), 1, "verify_rollup_blob_against_sequencer_blob call")
     for r in rem:
-        k2_site_guarded(rep, "Q4", "remove<=get+verify", body, r.bb, get,
+        k2_site_guarded(rep, rule, "remove<=get+verify", body, r.bb, get,
                         "a header blob is handed out without the lookup-and-verify step "
                         "succeeding", r.where())
         for g in get:
             rep.check(body.root(g.args[1]) == body.root(r.args[1]) and
-                      "sequencer_block_hash(rollup)" in body.root(r.args[1]), "Q4",
+                      "sequencer_block_hash(rollup)" in body.root(r.args[1]), rule,
                       "remove-key=get-key",
                       "the header removed is not the one looked up under the rollup blob's "
                       "block hash", r.where())
@@ -500,7 +500,7 @@ def q4(prog, rep):
                           any(v.body.name in body.root(e[2].args[1]) for v in ver)
                           for e in ev)
             direct = any(v.body is body for v in ver)
-            rep.check(chained or direct, "Q4", "verify-chained",
+            rep.check(chained or direct, rule, "verify-chained",
                       "the proof check is not chained onto the header lookup", g.where())
     for v in ver:
         if v.body is not body:
@@ -509,29 +509,29 @@ def q4(prog, rep):
             ts = [c for c in vb.calls if c.matches(r"bool>::then_some$|then_some$")]
             good = bool(ts) and "verify_rollup_blob_against_sequencer_blob" in vb.root(ts[0].args[0]) \
                 and not vb.root(ts[0].args[0]).startswith("Not")
-            rep.check(good, "Q4", "verify:then_some",
+            rep.check(good, rule, "verify:then_some",
                       "the proof-check closure does not map `true` to Some (then_some on the "
                       "check's own result)", v.where())
         a = [v.body.root(x) for x in v.args]
-        rep.check(a[0].startswith("rollup") and "header" in a[1], "Q4", "verify-operands",
+        rep.check(a[0].startswith("rollup") and "header" in a[1], rule, "verify-operands",
                   f"proof check applied to {a}", v.where())
     # the proof check itself: audit of (rollup_id || root(transactions)) against the
     # metadata's rollup_transactions_root
     fn = RC + "verify_rollup_blob_against_sequencer_blob"
     body = prog.main_body(fn)
     perf = [c for c in body.calls if c.matches(r"astria_merkle::audit::Audit.*::perform$")]
-    rep.floor("Q4", len(perf), 1, "Audit::perform in verify_rollup_blob_against_sequencer_blob")
+    rep.floor(rule, len(perf), 1, "Audit::perform in verify_rollup_blob_against_sequencer_blob")
     for pcall in perf:
         r = body.root(pcall.args[0])
-        rep.check("rollup_transactions_root(sequencer_blob)" in r, "Q4", "audit-root",
+        rep.check("rollup_transactions_root(sequencer_blob)" in r, rule, "audit-root",
                   "the audit is not performed against the metadata's rollup_transactions_root",
                   pcall.where())
         rep.check("rollup_id(rollup_blob)" in r and "transactions(rollup_blob)" in r and
-                  "proof(rollup_blob)" in r, "Q4", "audit-leaf",
+                  "proof(rollup_blob)" in r, rule, "audit-leaf",
                   f"the audited leaf is not rollup_id || root(transactions) of the rollup blob "
                   f"with the blob's own proof: {trunc(r, 200)}", pcall.where())
         # returned value is the audit result itself (not negated / or-ed)
-        rep.check(pcall.dest == "0", "Q4", "audit-result-returned",
+        rep.check(pcall.dest == "0", rule, "audit-result-returned",
                   "the audit result is not what the function returns", pcall.where())
 
 
